@@ -177,6 +177,10 @@ impl<'a> Run<'a> {
         self.cfg.classes.slots()[class as usize]
     }
     fn resolve_class(&self, c: u8) -> u8 {
+        if self.or.single_slot {
+            // C11: every request names the one class that owns the allocator's only slot
+            return self.cfg.classes.slots().iter().position(|&n| n > 0).unwrap_or(0) as u8;
+        }
         c % self.cfg.classes.classes() as u8
     }
     fn resolve_slot(&self, class: u8, s: &SlotSel) -> Option<usize> {
